@@ -505,10 +505,9 @@ class FileResponse(Response, FileResponseMixin):
                     for k, v in (exception.headers or {}).items()
                 ],
             )
-            return await send_http_body(
-                send,
-                b"" if exception.content is None else exception.content.encode("utf8"),
-            )
+            if send_header_only or exception.content is None:
+                return await send_http_body(send, b"")
+            return await send_http_body(send, exception.content.encode("utf8"))
 
         if len(ranges) == 1:
             start, end = ranges[0]
